@@ -16,7 +16,9 @@
   independently be one that raises / cannot be serialised, so a "fault plan" is any such input and
   the first fault in program order is the one that fires.
 -/
+import ASV.Model.PosixPath
 namespace ASV.WriteSafety
+open ASV.PosixPath (Path)
 
 /-- Python exception class name; `write_to_file` intercepts exactly `TypeError` -/
 abbrev Exn := String
@@ -107,13 +109,51 @@ end
 
 /-! ### results, records, events -/
 
-/-- one value of a record's `{module name: results}` dictionary -/
+/-- a value of the wrong type sitting in a record's results dictionary (typically raw JSON left
+    over from `--reuse-results` for a module that was never regenerated); `n` = number of items -/
+inductive Raw where
+  | dict (n : Nat)
+  | list (n : Nat)
+  | str (s : String)
+  | int (n : Int)
+  | bool (b : Bool)
+deriving Repr, Inhabited, DecidableEq
+
+/-- Python truthiness, `bool(value)` -/
+def Raw.truthy : Raw → Bool
+  | .dict n => n != 0
+  | .list n => n != 0
+  | .str s => s != ""
+  | .int n => n != 0
+  | .bool b => b
+
+/-- one value of a record's `{module name: results}` dictionary.  `truthy` is `bool(obj)` of a
+    `ModuleResults` object (classes with `__len__` are falsy when empty); the unchanged code never
+    consults it, which is the point of carrying it -/
 inductive ModSpec where
-  | none                  -- `None`: skipped (`continue`)
-  | mod (v : PyVal)       -- a `ModuleResults` whose `to_json()` returns `v`
-  | raises (e : Exn)      -- a `ModuleResults` whose `to_json()` raises `e`
-  | invalid               -- neither (e.g. a raw dict left from reused results): `TypeError`
+  | none                                 -- `None`: skipped (`continue`)
+  | mod (truthy : Bool) (v : PyVal)      -- a `ModuleResults` whose `to_json()` returns `v`
+  | raises (truthy : Bool) (e : Exn)     -- a `ModuleResults` whose `to_json()` raises `e`
+  | invalid (raw : Raw)                  -- neither: `TypeError`, whatever its value
 deriving Repr, Inhabited
+
+/-- `m_results is None` — the skip test of `dump_records` -/
+def ModSpec.isNone : ModSpec → Bool
+  | .none => true
+  | _ => false
+
+/-- `isinstance(m_results, ModuleResults)` -/
+def ModSpec.isModuleResults : ModSpec → Bool
+  | .mod _ _ => true
+  | .raises _ _ => true
+  | _ => false
+
+/-- `bool(m_results)` -/
+def ModSpec.truthy : ModSpec → Bool
+  | .none => false
+  | .mod t _ => t
+  | .raises t _ => t
+  | .invalid raw => raw.truthy
 
 /-- a secmet record: only whether its own conversion (`to_biopython`, `record_to_json`, …) raises -/
 structure RecSpec where
@@ -147,17 +187,20 @@ structure Res (α : Type) where
   trace : List Ev
   out : Except Exn α
 
-/-- `for module, m_results in result.items()` — `j` counts dictionary entries, `None` included -/
+/-- `for module, m_results in result.items()` — `j` counts dictionary entries, `None` included:
+    `if m_results is None: continue`; `if isinstance(m_results, ModuleResults): modules[module] =
+    m_results.to_json()`; `else: raise TypeError` -/
 def convertModules (i : Nat) : Nat → ModDict → Res (List (String × PyVal))
   | _, [] => ⟨[], .ok []⟩
   | j, (name, m) :: rest =>
-    match m with
-    | .none => convertModules i (j + 1) rest
-    | .mod v =>
-      let r := convertModules i (j + 1) rest
-      ⟨.modConv i j :: r.trace, match r.out with | .ok ms => .ok ((name, v) :: ms) | .error e => .error e⟩
-    | .raises e => ⟨[.modConv i j], .error e⟩
-    | .invalid => ⟨[], .error typeError⟩
+    if m.isNone then convertModules i (j + 1) rest
+    else
+      match m with
+      | .mod _ v =>
+        let r := convertModules i (j + 1) rest
+        ⟨.modConv i j :: r.trace, match r.out with | .ok ms => .ok ((name, v) :: ms) | .error e => .error e⟩
+      | .raises _ e => ⟨[.modConv i j], .error e⟩
+      | _ => ⟨[], .error typeError⟩
 
 /-- `for i, secmet in enumerate(secmet_records): result = results[i]; …` -/
 def convertRecords : Nat → List RecSpec → List ModDict → Res (List (List (String × PyVal)))
@@ -284,14 +327,24 @@ structure PrepIn where
   target : Target
   /-- the `input_file` argument (sequence file, or the results file being reused) -/
   inputFile : String
-  /-- `some n`: `config.logfile` is the entry `n` of this directory -/
-  logName : Option String
+  /-- `os.getcwd()` -/
+  cwd : String
+  /-- the `name` argument: the output directory as given (non-empty) -/
+  name : String
+  /-- `config.logfile` (`""` when no log file was requested) -/
+  logfile : String
 deriving Repr, Inhabited
 
-/-- `_ignore_patterns(entry)`: `True` means "this entry counts as other files" -/
-def ignorePatterns (logName : Option String) (e : Entry) : Bool :=
-  if e.name == "input" && e.isDir then false
-  else if logName == some e.name then false
+/-- `os.path.join(name, entry)` for a directory entry -/
+def entryPath (p : PrepIn) (e : Entry) : Path := PosixPath.join p.name.toList e.name.toList
+
+/-- `_ignore_patterns(entry)`: `True` means "this entry counts as other files".
+    `entry.endswith('/input') and os.path.isdir(entry)`, then — only when a log file is configured —
+    `os.path.abspath(entry) == os.path.abspath(config.logfile)` -/
+def ignorePatterns (p : PrepIn) (e : Entry) : Bool :=
+  if "/input".toList.isSuffixOf (entryPath p e) && e.isDir then false
+  else if p.logfile != "" &&
+      PosixPath.abspath p.cwd.toList (entryPath p e) == PosixPath.abspath p.cwd.toList p.logfile.toList then false
   else true
 
 /-- `glob` pattern `*.region???.gbk` on one file name (hidden names never match a `*`) -/
@@ -316,7 +369,7 @@ def prepareOutputDir (p : PrepIn) : PrepOut :=
   | .absent => ⟨[.mkdir], Option.none, .dir []⟩
   | .file => ⟨[], some inputError, .file⟩
   | .dir es =>
-    if !reuseMode p && !(es.filter (ignorePatterns p.logName)).isEmpty then
+    if !reuseMode p && !(es.filter (ignorePatterns p)).isEmpty then
       ⟨[], some inputError, .dir es⟩
     else
       ⟨(es.filter fun e => isRegionGbk e.name).map (fun e => .remove e.name), Option.none,
